@@ -459,6 +459,34 @@ def zero_case(draw):
 
 
 @st.composite
+def whole_number_options_case(draw):
+    """integer nodes with large whole numbers as options, written in the node's own unit (no conversion takes part): a
+    value that is none of the listed whole numbers is not an option, however close it lies in relative terms - the
+    tolerance the documentation gives belongs to the comparison operators of logical expressions"""
+    tkw = draw(st.sampled_from(["int", "int", "int64", "uint64"]))
+    unit = draw(st.sampled_from([None, None, "m", "s"]))
+    u = f" {unit}" if unit else ""
+    base = draw(st.sampled_from([10 ** 6, 2 * 10 ** 6, 3 * 10 ** 7, 10 ** 9, 2 ** 31 - 1] +
+                                ([2 ** 53, 2 ** 62] if tkw in ("int64", "uint64") else [])))
+    others = [base * 2, base * 3][:draw(st.integers(0, 2))]
+    opts = [base] + others
+    what = draw(st.sampled_from(["listed", "off_by_one", "off_by_one", "off_by_few"]))
+    val = {"listed": draw(st.sampled_from(opts)), "off_by_one": base + draw(st.sampled_from([1, -1])),
+           "off_by_few": base + draw(st.integers(2, 9))}[what]
+    ok = val in opts
+    form = draw(st.sampled_from(["list", "lines"]))
+    cons = ["  !options [" + ",".join(map(str, opts)) + "]" + u] if form == "list" else [f"  = {o}{u}" for o in opts]
+    how = draw(st.sampled_from(["definition", "modification", "declaration"]))
+    if how == "definition":
+        lines = [f"x {tkw} = {val}{u}"] + cons
+    elif how == "modification":
+        lines = [f"x {tkw} = {base}{u}"] + cons + [f"x = {val}{u}"]
+    else:
+        lines = [f"x {tkw}{u}"] + cons + [f"x = {val}{u}"]
+    return {"kind": "lines", "lines": lines, "expect_ok": ok, "what": "large_whole_numbers_as_options"}
+
+
+@st.composite
 def after_modification_case(draw):
     """a constraint written below a MODIFICATION belongs to the modified node (another node was defined in between and
     would give the opposite answer)"""
@@ -548,7 +576,8 @@ def strategies(tier):
             "zero": (zero_case(), 300, 6000), "after_modification": (after_modification_case(), 300, 6000),
             "same_condition_text": (same_condition_text_case(), 150, 3000),
             "empty_option": (empty_option_case(), 100, 1500),
-            "unitless_node_options": (unitless_node_options_case(), 120, 2000)}
+            "unitless_node_options": (unitless_node_options_case(), 120, 2000),
+            "whole_number_options": (whole_number_options_case(), 150, 2500)}
 
 
 # --------------------------------------------------------------------------- rendering
